@@ -586,4 +586,17 @@ theorem slice_bounds_exact (v : View) (h : v.start ≤ v.stop) (a b : Option Int
   unfold sliceBounds specSlice sliceRange pyIndices mkView View.len
   cases a <;> cases b <;> simp only <;> (repeat' split) <;> simp only [View.mk.injEq, and_true, true_and] <;> omega
 
+theorem specIO_post (v : View) (f : File) (op : Op) (s : SpecOut) (h : specIO v f op = some s) :
+    s.post.start = v.start ∧ s.post.stop = v.stop ∧ s.post.closed = v.closed := by
+  cases op with
+  | read i n => simp only [specIO, Option.some.injEq] at h; subst h; exact ⟨rfl, rfl, rfl⟩
+  | write i d => simp only [specIO, Option.some.injEq] at h; subst h; exact ⟨rfl, rfl, rfl⟩
+  | seek i n wh =>
+    simp only [specIO] at h
+    split at h <;> (simp only [Option.some.injEq] at h; subst h; exact ⟨rfl, rfl, rfl⟩)
+  | tell i => simp only [specIO, Option.some.injEq] at h; subst h; exact ⟨rfl, rfl, rfl⟩
+  | address i => simp only [specIO, Option.some.injEq] at h; subst h; exact ⟨rfl, rfl, rfl⟩
+  | flush i => simp only [specIO, Option.some.injEq] at h; subst h; exact ⟨rfl, rfl, rfl⟩
+  | _ => simp [specIO] at h
+
 end Rig.C13
